@@ -43,6 +43,8 @@ def shards(tier: str, seed: int) -> List[Dict[str, Any]]:
                 continue
             seen.add(c["id"])
             out.append({"id": f"{e}|{c['id']}", "env": e, "cfg": c, "weight": HEAVY.get(e, 1.0)})
+    many = [["Snake", "r3c5L7"], ["Game2048", "b3"], ["Knapsack", "n10b2sparse"]] + ([["Maze", "r5c9L7"], ["Minesweeper", "r3c7m5"], ["TSP", "n5sparse"]] if tier == "thorough" else [])
+    out.append({"id": "adapters|many_resets", "kind": "many_resets", "cfgs": many, "resets": 70 if tier == "quick" else 300, "weight": 3.0})
     return out
 
 
@@ -55,7 +57,49 @@ def flat_gym(obs, prefix="") -> Dict[str, np.ndarray]:
     return {prefix: np.asarray(obs)}
 
 
+def run_many_resets(shard: Dict[str, Any], rep: Report) -> None:
+    """One adapter object, many reset() calls (more than any plausible internal key buffer): reset number n must show the
+    observation of the native reset on the n-th key of the documented schedule (seed, then one split per reset)."""
+    import jax
+    import jax.numpy as jnp
+    from jumanji.wrappers import JumanjiToDMEnvWrapper, JumanjiToGymWrapper
+
+    tol = dict(exact=False, rtol=1e-6, atol=1e-7)
+    n = shard["resets"]
+    for name, cid in shard["cfgs"]:
+        cfg = E.cfg_by_id(name, cid)
+        env = E.build(name, cfg)
+        n_reset = jax.jit(env.reset)
+        aspec = env.action_spec
+        rng = shard_rng(shard["seed"], shard["id"] + name)
+        for kind in ("gym", "dm"):
+            sd = 11 + shard["seed"]
+            k = jax.random.PRNGKey(sd)
+            ad = JumanjiToGymWrapper(env, seed=sd) if kind == "gym" else JumanjiToDMEnvWrapper(env, key=k)
+            seen = {}
+            for r in range(n):
+                rk, k = jax.random.split(k)
+                obs = ad.reset()[0] if kind == "gym" else ad.reset().observation
+                s0, t0 = n_reset(rk)
+                rep.evaluated(1)
+                rep.count(f"many_resets_{kind}")
+                got = flat_gym(obs) if kind == "gym" else decode(obs)
+                exp = decode(t0.observation) if not hasattr(t0.observation, "shape") else {"": np.asarray(t0.observation)}
+                d = digest_decoded(got)
+                if tree_diff(got, exp, **tol):
+                    rep.violation(name, cid, f"{kind}_reset_follows_key_schedule", {"reset_number": r + 1, "same_as_reset_number": seen.get(d)},
+                                  replay={"env": name, "cfg": cfg, "adapter": kind, "seed": sd, "reset_number": r + 1}, qualifier="replays_earlier_reset" if d in seen else "")
+                    break
+                seen.setdefault(d, r + 1)
+                a = np.asarray(A.sample_masked(name, aspec, A.get_mask(t0), rng)[0])
+                ad.step(a)
+        rep.env_count(name, "many_resets_run")
+    E.cleanup()
+
+
 def run_shard(shard: Dict[str, Any], rep: Report) -> None:
+    if shard.get("kind") == "many_resets":
+        return run_many_resets(shard, rep)
     import dm_env
     import jax
     import jax.numpy as jnp
@@ -113,175 +157,186 @@ def run_shard(shard: Dict[str, Any], rep: Report) -> None:
     else:
         env = base
 
-    n_reset, n_step = jax.jit(env.reset), jax.jit(env.step)
-    aspec = env.action_spec
-    # environment-specific workloads (drive to completion / to the extreme cells) so that boundary observations are
-    # also relayed through the adapters
-    from jmon.modelapi import ModelCtx
+    # the adapters are driven over every variant: for multi-agent environments the default (sum, max) aggregation and a
+    # fractional one (mean, mean), whose discounts lie strictly between 0 and 1 while only some agents are done
+    variants = [(env, "")]
+    if name in MULTI:
+        variants.append((MultiToSingleWrapper(base, reward_aggregator=jnp.mean, discount_aggregator=jnp.mean), "mean_aggregators"))
+    for env, vtag in variants:
+        if vtag:
+            rep.count("adapter_runs_with_fractional_discount_aggregator")
+            seeds = seeds[:1]
+        n_reset, n_step = jax.jit(env.reset), jax.jit(env.step)
+        aspec = env.action_spec
+        # environment-specific workloads (drive to completion / to the extreme cells) so that boundary observations are
+        # also relayed through the adapters
+        from jmon.modelapi import ModelCtx
 
-    P = ModelCtx(name, cfg, rep, env=base, rng=rng)
-    model_pols = P.call("policies") if P.has("policies") else {}
-    model_pol_list = [model_pols[k] for k in ("complete", "frontier") if k in model_pols]
+        P = ModelCtx(name, cfg, rep, env=base, rng=rng)
+        model_pols = P.call("policies") if P.has("policies") else {}
+        model_pol_list = [model_pols[k] for k in ("complete", "frontier") if k in model_pols]
 
-    class _R:  # minimal runner facade for policies that look ahead with the real step
-        env_name, spec = name, aspec
+        class _R:  # minimal runner facade for policies that look ahead with the real step
+            env_name, spec = name, aspec
 
-        def __init__(self):
-            self.env = base
+            def __init__(self):
+                self.env = base
 
-        def step(self, st, a):
-            return n_step(st, A.as_action(aspec, a))
+            def step(self, st, a):
+                return n_step(st, A.as_action(aspec, a))
 
-    facade = _R()
+        facade = _R()
 
-    # ---------------- Gym ---------------------------------------------------------------------------------------
-    for sd in seeds:
-        try:
-            g = JumanjiToGymWrapper(env, seed=sd)
-        except Exception as e:
-            viol("gym_wrapper_constructs", {"error": repr(e)[:300]})
-            break
-        g.action_space.seed(sd)
-        k = jax.random.PRNGKey(sd)
-        first_episode = None
-        for rnum in range(n_resets):
-            rk, k = jax.random.split(k)
-            obs, info = g.reset()
-            s0, t0 = n_reset(rk)
-            rep.evaluated(1)
-            rep.count("gym_resets")
-            fo = flat_gym(obs)
-            bad = tree_diff(fo, decode(t0.observation) if not hasattr(t0.observation, "shape") else {"": np.asarray(t0.observation)}, **tol)
-            rp = {"env": name, "cfg": cfg, "gym_seed": sd, "reset_number": rnum}
-            if bad:
-                viol("gym_reset_observation", {"fields": bad[:6]}, replay=rp)
-            if not g.observation_space.contains(obs):
-                viol("gym_observation_in_space", {"when": "reset", "why": why_not_contained(g.observation_space, obs)}, replay=rp)
-            bad = tree_diff(flat_gym(info), decode(t0.extras) if t0.extras else {}, **tol)
-            if bad:
-                viol("gym_reset_info", {"fields": bad[:6]}, replay=rp)
-            trace = []
-            use_model_pol = model_pol_list[(rnum + seeds.index(sd)) % len(model_pol_list)] if (model_pol_list and (rnum + seeds.index(sd)) % 2 == 1) else None
-            pctx = {"env_name": name, "spec": aspec, "rng": rng, "runner": facade, "legal_only": True, "policy": "model", "key": rk, "key_int": None, "episode": rnum}
-            for i in range(n_steps if use_model_pol is None else max(n_steps, 120)):
-                if use_model_pol is not None:
-                    pctx.update(ts=t0, state=s0, t=i)
-                    try:
-                        a = np.asarray(use_model_pol(pctx))
-                    except Exception:
-                        a = np.asarray(A.sample_masked(name, aspec, A.get_mask(t0), rng)[0])
-                    rep.count("gym_model_policy_actions")
-                    aj = jnp.asarray(a)
-                elif rng.random() < 0.5:
-                    a = g.action_space.sample()
-                    rep.count("gym_sampled_actions")
-                    aj = jnp.asarray(a)
-                    probs = SM.problems(aspec, np.asarray(aj))
-                    rep.evaluated(1)
-                    if probs:
-                        viol("gym_sample_is_native_action", {"sample": np.asarray(a).tolist(), "problems": probs[:3]}, replay=rp)
-                else:
-                    a = np.asarray(A.sample_masked(name, aspec, A.get_mask(t0), rng)[0])
-                    aj = jnp.asarray(a)
-                try:
-                    obs, reward, term, trunc, info = g.step(a)
-                except Exception as e:
-                    viol("gym_step_raises", {"action": np.asarray(a).tolist(), "error": repr(e)[:300]}, replay=rp)
-                    break
-                s0, t0 = n_step(s0, aj)
-                rep.evaluated(1, digest_decoded(decode(s0)))
-                rep.count("gym_steps")
-                trace.append((np.asarray(a).tolist(), float(reward), bool(term), bool(trunc)))
-                rp2 = dict(rp, actions=[x[0] for x in trace])
-                bad = tree_diff(flat_gym(obs), decode(t0.observation) if not hasattr(t0.observation, "shape") else {"": np.asarray(t0.observation)}, **tol)
-                if bad:
-                    viol("gym_step_observation", {"fields": bad[:6], "step": i}, replay=rp2)
-                if not g.observation_space.contains(obs):
-                    viol("gym_observation_in_space", {"when": f"step {i}", "why": why_not_contained(g.observation_space, obs)}, replay=rp2)
-                if not isinstance(reward, float) or not np.isclose(reward, float(np.asarray(t0.reward)), rtol=1e-6, atol=1e-7):
-                    viol("gym_reward", {"got": reward, "native": float(np.asarray(t0.reward)), "step": i}, replay=rp2)
-                nat_term = bool(np.all(np.asarray(t0.discount) == 0))
-                nat_last = int(np.asarray(t0.step_type)) == 2
-                if term is not True and term is not False or bool(term) != nat_term:
-                    viol("gym_terminated_iff_zero_discount", {"terminated": bool(term), "native_discount": np.asarray(t0.discount).tolist(), "step": i}, replay=rp2)
-                if bool(trunc) != nat_last:
-                    viol("gym_truncated_iff_last", {"truncated": bool(trunc), "native_last": nat_last, "step": i}, replay=rp2)
-                bad = tree_diff(flat_gym(info), decode(t0.extras) if t0.extras else {}, **tol)
-                if bad:
-                    viol("gym_info_equals_extras", {"fields": bad[:6], "step": i}, replay=rp2)
-                if nat_last:
-                    rep.count("gym_episode_ends")
-                    break
-            if rnum == 0:
-                first_episode = (flat_gym(g.reset(seed=sd)[0]), None)
-                # re-seeding reproduces the first reset observation; restore the documented key stream afterwards
-                s_again, t_again = n_reset(jax.random.split(jax.random.PRNGKey(sd))[0])
-                rep.evaluated(1)
-                rep.count("gym_reseeds")
-                if tree_diff(first_episode[0], decode(t_again.observation) if not hasattr(t_again.observation, "shape") else {"": np.asarray(t_again.observation)}, **tol):
-                    viol("gym_reseed_reproduces_episode", {"seed": sd}, replay=rp)
-                k = jax.random.split(jax.random.PRNGKey(sd))[1]
-        if len(rep.samples) < 1 and trace:
-            rep.sample({"env": name, "cfg": cid, "gym_seed": sd, "trace_head": trace[:6]})
-        # re-seeding with seed 0 (a falsy value) on an adapter that has already been used
-        for reseed in (0, sd + 7):
-            obs0, _ = g.reset(seed=reseed)
-            s_n, t_n = n_reset(jax.random.split(jax.random.PRNGKey(reseed))[0])
-            rep.evaluated(1)
-            rep.count("gym_reseeds")
-            if tree_diff(flat_gym(obs0), decode(t_n.observation) if not hasattr(t_n.observation, "shape") else {"": np.asarray(t_n.observation)}, **tol):
-                viol("gym_reseed_reproduces_episode", {"seed": reseed, "adapter_seed": sd}, replay={"env": name, "cfg": cfg, "gym_seed": sd, "reseed": reseed}, qualifier="seed0" if reseed == 0 else "")
-
-    # ---------------- dm_env -------------------------------------------------------------------------------------
-    for sd in seeds[:2]:
-        k0 = jax.random.PRNGKey(sd + 1000)
-        episodes = []
-        for rep_no in range(2):  # the second adapter with the same key must reproduce the first
-            d = JumanjiToDMEnvWrapper(env, key=k0)
-            k = k0
-            ospec = d.observation_spec()
-            a_rng = np.random.default_rng(sd)
-            log = []
+        # ---------------- Gym ---------------------------------------------------------------------------------------
+        for sd in seeds:
+            try:
+                g = JumanjiToGymWrapper(env, seed=sd)
+            except Exception as e:
+                viol("gym_wrapper_constructs", {"error": repr(e)[:300]})
+                break
+            g.action_space.seed(sd)
+            k = jax.random.PRNGKey(sd)
+            first_episode = None
             for rnum in range(n_resets):
                 rk, k = jax.random.split(k)
-                ts = d.reset()
+                obs, info = g.reset()
                 s0, t0 = n_reset(rk)
-                if rep_no == 0:
-                    rep.evaluated(1)
-                    rep.count("dm_resets")
-                    if ts.step_type != dm_env.StepType.FIRST or ts.reward is not None or ts.discount is not None:
-                        viol("dm_first_timestep", {"step_type": int(ts.step_type), "reward": repr(ts.reward), "discount": repr(ts.discount)})
-                    bad = tree_diff(decode(ts.observation), decode(t0.observation), **tol)
+                rep.evaluated(1)
+                rep.count("gym_resets")
+                fo = flat_gym(obs)
+                bad = tree_diff(fo, decode(t0.observation) if not hasattr(t0.observation, "shape") else {"": np.asarray(t0.observation)}, **tol)
+                rp = {"env": name, "cfg": cfg, "gym_seed": sd, "reset_number": rnum}
+                if bad:
+                    viol("gym_reset_observation", {"fields": bad[:6]}, replay=rp)
+                if not g.observation_space.contains(obs):
+                    viol("gym_observation_in_space", {"when": "reset", "why": why_not_contained(g.observation_space, obs)}, replay=rp)
+                bad = tree_diff(flat_gym(info), decode(t0.extras) if t0.extras else {}, **tol)
+                if bad:
+                    viol("gym_reset_info", {"fields": bad[:6]}, replay=rp)
+                trace = []
+                use_model_pol = model_pol_list[(rnum + seeds.index(sd)) % len(model_pol_list)] if (model_pol_list and (rnum + seeds.index(sd)) % 2 == 1) else None
+                pctx = {"env_name": name, "spec": aspec, "rng": rng, "runner": facade, "legal_only": True, "policy": "model", "key": rk, "key_int": None, "episode": rnum}
+                for i in range(n_steps if use_model_pol is None else max(n_steps, 120)):
+                    if use_model_pol is not None:
+                        pctx.update(ts=t0, state=s0, t=i)
+                        try:
+                            a = np.asarray(use_model_pol(pctx))
+                        except Exception:
+                            a = np.asarray(A.sample_masked(name, aspec, A.get_mask(t0), rng)[0])
+                        rep.count("gym_model_policy_actions")
+                        aj = jnp.asarray(a)
+                    elif rng.random() < 0.5:
+                        a = g.action_space.sample()
+                        rep.count("gym_sampled_actions")
+                        aj = jnp.asarray(a)
+                        probs = SM.problems(aspec, np.asarray(aj))
+                        rep.evaluated(1)
+                        if probs:
+                            viol("gym_sample_is_native_action", {"sample": np.asarray(a).tolist(), "problems": probs[:3]}, replay=rp)
+                    else:
+                        a = np.asarray(A.sample_masked(name, aspec, A.get_mask(t0), rng)[0])
+                        aj = jnp.asarray(a)
+                    try:
+                        obs, reward, term, trunc, info = g.step(a)
+                    except Exception as e:
+                        viol("gym_step_raises", {"action": np.asarray(a).tolist(), "error": repr(e)[:300]}, replay=rp)
+                        break
+                    s0, t0 = n_step(s0, aj)
+                    rep.evaluated(1, digest_decoded(decode(s0)))
+                    rep.count("gym_steps")
+                    trace.append((np.asarray(a).tolist(), float(reward), bool(term), bool(trunc)))
+                    rp2 = dict(rp, actions=[x[0] for x in trace])
+                    bad = tree_diff(flat_gym(obs), decode(t0.observation) if not hasattr(t0.observation, "shape") else {"": np.asarray(t0.observation)}, **tol)
                     if bad:
-                        viol("dm_reset_observation", {"fields": bad[:6]})
-                    probs = dm_spec_problems(ospec, ts.observation)
-                    if probs:
-                        viol("dm_observation_in_spec", {"when": "reset", "problems": probs[:3]})
-                log.append(digest_decoded(decode(ts.observation)))
-                for i in range(n_steps):
-                    a = A.sample_masked(name, aspec, A.get_mask(t0), a_rng)[0] if a_rng.random() < 0.7 else A.sample_random(aspec, a_rng)
-                    ts = d.step(np.asarray(a))
-                    s0, t0 = n_step(s0, jnp.asarray(a))
-                    log.append(digest_decoded(decode(ts.observation)))
+                        viol("gym_step_observation", {"fields": bad[:6], "step": i}, replay=rp2)
+                    if not g.observation_space.contains(obs):
+                        viol("gym_observation_in_space", {"when": f"step {i}", "why": why_not_contained(g.observation_space, obs)}, replay=rp2)
+                    if not isinstance(reward, float) or not np.isclose(reward, float(np.asarray(t0.reward)), rtol=1e-6, atol=1e-7):
+                        viol("gym_reward", {"got": reward, "native": float(np.asarray(t0.reward)), "step": i}, replay=rp2)
+                    if 0 < float(np.asarray(t0.discount)) < 1:
+                        rep.count("gym_steps_with_fractional_discount")
+                    nat_term = bool(np.all(np.asarray(t0.discount) == 0))
+                    nat_last = int(np.asarray(t0.step_type)) == 2
+                    if term is not True and term is not False or bool(term) != nat_term:
+                        viol("gym_terminated_iff_zero_discount", {"terminated": bool(term), "native_discount": np.asarray(t0.discount).tolist(), "step": i}, replay=rp2)
+                    if bool(trunc) != nat_last:
+                        viol("gym_truncated_iff_last", {"truncated": bool(trunc), "native_last": nat_last, "step": i}, replay=rp2)
+                    bad = tree_diff(flat_gym(info), decode(t0.extras) if t0.extras else {}, **tol)
+                    if bad:
+                        viol("gym_info_equals_extras", {"fields": bad[:6], "step": i}, replay=rp2)
+                    if nat_last:
+                        rep.count("gym_episode_ends")
+                        break
+                if rnum == 0:
+                    first_episode = (flat_gym(g.reset(seed=sd)[0]), None)
+                    # re-seeding reproduces the first reset observation; restore the documented key stream afterwards
+                    s_again, t_again = n_reset(jax.random.split(jax.random.PRNGKey(sd))[0])
+                    rep.evaluated(1)
+                    rep.count("gym_reseeds")
+                    if tree_diff(first_episode[0], decode(t_again.observation) if not hasattr(t_again.observation, "shape") else {"": np.asarray(t_again.observation)}, **tol):
+                        viol("gym_reseed_reproduces_episode", {"seed": sd}, replay=rp)
+                    k = jax.random.split(jax.random.PRNGKey(sd))[1]
+            if len(rep.samples) < 1 and trace:
+                rep.sample({"env": name, "cfg": cid, "gym_seed": sd, "trace_head": trace[:6]})
+            # re-seeding with seed 0 (a falsy value) on an adapter that has already been used
+            for reseed in (0, sd + 7):
+                obs0, _ = g.reset(seed=reseed)
+                s_n, t_n = n_reset(jax.random.split(jax.random.PRNGKey(reseed))[0])
+                rep.evaluated(1)
+                rep.count("gym_reseeds")
+                if tree_diff(flat_gym(obs0), decode(t_n.observation) if not hasattr(t_n.observation, "shape") else {"": np.asarray(t_n.observation)}, **tol):
+                    viol("gym_reseed_reproduces_episode", {"seed": reseed, "adapter_seed": sd}, replay={"env": name, "cfg": cfg, "gym_seed": sd, "reseed": reseed}, qualifier="seed0" if reseed == 0 else "")
+
+        # ---------------- dm_env -------------------------------------------------------------------------------------
+        for sd in seeds[:2]:
+            k0 = jax.random.PRNGKey(sd + 1000)
+            episodes = []
+            for rep_no in range(2):  # the second adapter with the same key must reproduce the first
+                d = JumanjiToDMEnvWrapper(env, key=k0)
+                k = k0
+                ospec = d.observation_spec()
+                a_rng = np.random.default_rng(sd)
+                log = []
+                for rnum in range(n_resets):
+                    rk, k = jax.random.split(k)
+                    ts = d.reset()
+                    s0, t0 = n_reset(rk)
                     if rep_no == 0:
-                        rep.evaluated(1, digest_decoded(decode(s0)))
-                        rep.count("dm_steps")
-                        exp = {"step_type": np.asarray(t0.step_type), "reward": np.asarray(t0.reward), "discount": np.asarray(t0.discount)}
-                        got = {"step_type": np.asarray(ts.step_type), "reward": np.asarray(ts.reward), "discount": np.asarray(ts.discount)}
-                        bad = [f for f in exp if not np.allclose(np.asarray(got[f], np.float64), np.asarray(exp[f], np.float64), rtol=1e-6, atol=1e-7)]
-                        bad += tree_diff(decode(ts.observation), decode(t0.observation), **tol)
+                        rep.evaluated(1)
+                        rep.count("dm_resets")
+                        if ts.step_type != dm_env.StepType.FIRST or ts.reward is not None or ts.discount is not None:
+                            viol("dm_first_timestep", {"step_type": int(ts.step_type), "reward": repr(ts.reward), "discount": repr(ts.discount)})
+                        bad = tree_diff(decode(ts.observation), decode(t0.observation), **tol)
                         if bad:
-                            viol("dm_step_equals_native", {"fields": bad[:6], "step": i})
+                            viol("dm_reset_observation", {"fields": bad[:6]})
                         probs = dm_spec_problems(ospec, ts.observation)
                         if probs:
-                            viol("dm_observation_in_spec", {"when": f"step {i}", "problems": probs[:3]})
-                    if int(np.asarray(t0.step_type)) == 2:
-                        break
-            episodes.append(log)
-        rep.evaluated(1)
-        rep.count("dm_recreations")
-        if episodes[0] != episodes[1]:
-            viol("dm_same_key_reproduces_episode", {"seed": sd})
+                            viol("dm_observation_in_spec", {"when": "reset", "problems": probs[:3]})
+                    log.append(digest_decoded(decode(ts.observation)))
+                    for i in range(n_steps):
+                        a = A.sample_masked(name, aspec, A.get_mask(t0), a_rng)[0] if a_rng.random() < 0.7 else A.sample_random(aspec, a_rng)
+                        ts = d.step(np.asarray(a))
+                        s0, t0 = n_step(s0, jnp.asarray(a))
+                        log.append(digest_decoded(decode(ts.observation)))
+                        if rep_no == 0:
+                            rep.evaluated(1, digest_decoded(decode(s0)))
+                            rep.count("dm_steps")
+                            exp = {"step_type": np.asarray(t0.step_type), "reward": np.asarray(t0.reward), "discount": np.asarray(t0.discount)}
+                            got = {"step_type": np.asarray(ts.step_type), "reward": np.asarray(ts.reward), "discount": np.asarray(ts.discount)}
+                            bad = [f for f in exp if not np.allclose(np.asarray(got[f], np.float64), np.asarray(exp[f], np.float64), rtol=1e-6, atol=1e-7)]
+                            bad += tree_diff(decode(ts.observation), decode(t0.observation), **tol)
+                            if bad:
+                                viol("dm_step_equals_native", {"fields": bad[:6], "step": i})
+                            probs = dm_spec_problems(ospec, ts.observation)
+                            if probs:
+                                viol("dm_observation_in_spec", {"when": f"step {i}", "problems": probs[:3]})
+                        if int(np.asarray(t0.step_type)) == 2:
+                            break
+                episodes.append(log)
+            rep.evaluated(1)
+            rep.count("dm_recreations")
+            if episodes[0] != episodes[1]:
+                viol("dm_same_key_reproduces_episode", {"seed": sd})
     rep.env_count(name, "adapters_run")
     E.cleanup()
 
